@@ -1,7 +1,71 @@
-(* C14 -- property theorems only: each is closed by [exact] of a lemma proved under Flt/. *)
-From Coq Require Import List NArith.
-From Muscle Require Import Msg.MsgDefs Msg.MsgModel Flt.FltModel Flt.FltProofs.
+(* C14 -- Query filters evaluate as documented, survive archiving, tolerate bad archives.
+   Property theorems only: each is closed by [exact] of a lemma proved under Flt/. *)
+From Coq Require Import List NArith Strings.Byte.
+From Muscle Require Import Gen.Consts Msg.MsgDefs Msg.MsgModel Flt.FltModel Flt.FltArchive Flt.FltProofs Flt.FltArchiveProofs.
+Import ListNotations.
+Local Open Scope N_scope.
 
-Theorem C14_and_of_nothing_matches : forall smatch node n m, eval smatch node (FMin n LNil) m = true.
-Proof. exact eval_min_nil. Qed.
-Print Assumptions C14_and_of_nothing_matches.
+(* ---- combinators: ThresholdMaxAux's loop with both early exits computes the documented count rule *)
+Theorem C14_min_match_is_count : forall smatch node n kids m,
+  eval smatch node (FMin n kids) m =
+  if flist_len kids =? 0 then true else N.min n (flist_len kids - 1) <? nmatch smatch node kids m.
+Proof. exact eval_min. Qed.
+Print Assumptions C14_min_match_is_count.
+
+Theorem C14_max_match_is_count : forall smatch node n kids m,
+  eval smatch node (FMax n kids) m =
+  negb (if flist_len kids =? 0 then true else N.min n (flist_len kids - 1) <? nmatch smatch node kids m).
+Proof. exact eval_max. Qed.
+Print Assumptions C14_max_match_is_count.
+
+Theorem C14_xor_is_parity : forall smatch node kids m,
+  eval smatch node (FXor kids) m = N.odd (nmatch smatch node kids m).
+Proof. exact eval_xor. Qed.
+Print Assumptions C14_xor_is_parity.
+
+Theorem C14_and_truth_table : forall smatch node kids m,
+  flist_len kids <= c_MUSCLE_NO_LIMIT -> eval smatch node (FAnd kids) m = all_match smatch node kids m.
+Proof. exact eval_and. Qed.
+Print Assumptions C14_and_truth_table.
+
+Theorem C14_or_truth_table : forall smatch node kids m,
+  eval smatch node (FOr kids) m = if flist_len kids =? 0 then true else some_match smatch node kids m.
+Proof. exact eval_or. Qed.
+Print Assumptions C14_or_truth_table.
+
+Theorem C14_nand_truth_table : forall smatch node kids m,
+  flist_len kids <= c_MUSCLE_NO_LIMIT -> eval smatch node (FNand kids) m = negb (all_match smatch node kids m).
+Proof. exact eval_nand. Qed.
+Print Assumptions C14_nand_truth_table.
+
+Theorem C14_nor_truth_table : forall smatch node kids m,
+  eval smatch node (FNor kids) m = negb (if flist_len kids =? 0 then true else some_match smatch node kids m).
+Proof. exact eval_nor. Qed.
+Print Assumptions C14_nor_truth_table.
+
+(* ---- archiving *)
+Theorem C14_archive_roundtrip : forall f, wf_filter f -> from_archive (to_archive f) = Ok f.
+Proof. exact archive_roundtrip. Qed.
+Print Assumptions C14_archive_roundtrip.
+
+Theorem C14_archive_decides_identically : forall f,
+  wf_filter f ->
+  exists f', from_archive (to_archive f) = Ok f' /\
+             forall smatch node m, eval smatch node f' m = eval smatch node f m.
+Proof. exact archive_decides_identically. Qed.
+Print Assumptions C14_archive_decides_identically.
+
+(* ---- untrusted archives *)
+Theorem C14_from_archive_total : forall a, exists r, from_archive a = r /\ (r = Err \/ exists f, r = Ok f).
+Proof. exact from_archive_total. Qed.
+Print Assumptions C14_from_archive_total.
+
+(* ---- non-vacuity: the premises are satisfiable by non-trivial filters *)
+Example C14_wf_example :
+  wf_filter (FAnd (LCons (FNum (KNum NFloat) [x61] 2 4 0 [x00; x00; xc0; x7f] [x00; x00; x00; x00] (Some [x00; x00; x00; x80]))
+            (LCons (FMsg [x6d] 0 (OSome (FStr false [x73] 0 8 [x67; x72] None)) None)
+            (LCons (FRaw [x72] 0 6 c_B_ANY_TYPE (Some [x01; x02]) None) LNil)))).
+Proof. cbv [wf_filter wf_flist wf_ofilter FAnd opt_nonempty]. repeat split; try (vm_compute; reflexivity); vm_compute; discriminate. Qed.
+
+Example C14_and_len_example : flist_len (LCons (FWhat 0 0) (LCons (FWhat 1 1) LNil)) <= c_MUSCLE_NO_LIMIT.
+Proof. vm_compute. discriminate. Qed.
